@@ -87,6 +87,9 @@ void Timer::Skip(u64 ticks) {
     if (pause || count_mode == CountMode::EventCount)
         return;
 
+    if (ticks == 0)
+        return;
+
     if (counter == 0) {
         u32 reset;
         if (count_mode == CountMode::AutoRestart) {
